@@ -14,9 +14,11 @@ CLAUSES = [
  ("hql", "CLUSTERED BY (a) INTO 4 BUCKETS"), ("hql", "ROW FORMAT SERDE 'x.y.Z'"), ("hql", "COMMENT 'tbl'"),
  ("mysql", "ENGINE=InnoDB"), ("mysql", "DEFAULT CHARSET=utf8"), ("mysql", "AUTO_INCREMENT=7"),
  ("oracle", "TABLESPACE ts1"), ("oracle", "STORAGE (INITIAL 1 NEXT 2)"), ("oracle", "ORGANIZATION INDEX"),
- ("redshift", "DISTSTYLE KEY"), ("redshift", "DISTKEY (a)"),
+ ("redshift", "DISTSTYLE KEY"), ("redshift", "DISTKEY (a)"), ("redshift", 'DISTKEY ("a")'),
  ("snowflake", "CLUSTER BY (a)"), ("snowflake", "COMMENT = 'c'"), ("snowflake", "DATA_RETENTION_TIME_IN_DAYS = 3"),
  ("snowflake", "CHANGE_TRACKING = TRUE"), ("snowflake", "WITH TAG (k = 'v')"),
+ ("snowflake", "COMMENT=\"it's ok\""), ("snowflake", "DATA_RETENTION_TIME_IN_DAYS=3"), ("snowflake", "CHANGE_TRACKING=TRUE"),
+ ("mysql", "COMMENT=\"o'k\""),
  ("mssql", "ON [PRIMARY]"), ("mssql", "TEXTIMAGE_ON [FG2]"), ("mssql", "WITH (PAD_INDEX = OFF)"),
  ("bigquery", "OPTIONS (description='d')"), ("bigquery", "PARTITION BY DATE(a)"),
  ("postgres", "INHERITS (base)"), ("postgres", "PARTITION BY RANGE (a)"),
@@ -35,7 +37,7 @@ json.dump({"_note": "frozen from the pinned commit by tools/freeze_catalog.py; r
           open("/verif/catalog/clauses.json", "w"), indent=1)
 
 STMTS = [
- "CREATE TYPE s.ty AS ENUM ('a', 'b', 'c');", "CREATE TYPE ty2 AS OBJECT (x int, y varchar(3));", "CREATE TYPE ty3 AS TABLE (x int, y int);",
+ "CREATE TYPE s.ty AS ENUM ('a', 'b', 'c');", "CREATE TYPE ty2 AS OBJECT (x int, y varchar(3));", "CREATE TYPE ty3 AS TABLE (x int, y int);", "CREATE TYPE ty5 AS TABLE (x int, y varchar(3), z int, w int);",
  "CREATE OR REPLACE TYPE ty4 AS ENUM ('z');",
  "CREATE DOMAIN s.d1 AS varchar(3);", "CREATE DOMAIN d2 AS ENUM ('p', 'q');", "CREATE DOMAIN d4 AS decimal(10);",
  "CREATE SCHEMA sc1;", "CREATE SCHEMA IF NOT EXISTS sc2;", "CREATE SCHEMA sc3 AUTHORIZATION joe;", "CREATE SCHEMA sc4 COMMENT 'cm';",
